@@ -137,7 +137,7 @@ def _classes():
     def opcall(self, tag, roots, t_cur, t_max, miscout, with_mcfg_in, with_mcfg_out):
         ctx = self.ctx
         rs, dat = ctx.snap(roots)
-        ev = {"tag": tag, "t": t_cur, "tm": t_max, "rep": None, "roots": rs, "dat": dat,
+        ev = {"tag": tag, "t": t_cur, "tm": t_max, "rep": None, "roots": rs, "dat": dat, "who": getattr(self, "serial", 0),
               "misc": [[-2, 0]] if not isinstance(miscout, dict) else
                       [[MISC_NAMES.index(k) if k in MISC_NAMES else -1, v] for k, v in miscout.items()]}   # must arrive empty
         ctx.trace.append(ev)
@@ -151,7 +151,7 @@ def _classes():
     def initcall(self, miscout):
         # what the programme passes for the interface's `miscout` parameter: None -> [], nothing at all -> [[-3, 0]]
         got = [] if miscout is None else ([[-3, 0]] if miscout is _MISSING else [[-2, 0]])
-        self.ctx.trace.append({"tag": TAGS["initialize"], "t": 0, "tm": 0, "rep": None, "roots": [], "dat": [], "misc": got,
+        self.ctx.trace.append({"tag": TAGS["initialize"], "t": 0, "tm": 0, "rep": None, "roots": [], "dat": [], "misc": got, "who": getattr(self, "serial", 0),
                                "ret": {"roots": [], "dat": [], "misc": []}})
         return tuple(self.result)
     class _Shared:
@@ -196,7 +196,7 @@ def _classes():
             ctx = self.ctx
             rs, dat = ctx.snap(roots)
             ctx.trace.append({"tag": TAGS["log_" + {"init": "initialize", "psel": "pselect", "mate": "mate", "eval": "evaluate", "ssel": "sselect"}[name]],
-                              "t": t_cur, "tm": t_max, "rep": self._rep, "roots": rs, "dat": dat,
+                              "t": t_cur, "tm": t_max, "rep": self._rep, "roots": rs, "dat": dat, "who": getattr(self, "serial", 0),
                               "misc": [[MISC_NAMES.index(k) if k in MISC_NAMES else -1, v] for k, v in kwargs.items()]})
             ev = ctx.trace[-1]
             env = list(roots[:NSLOT]) + [roots[NSLOT] if len(roots) > NSLOT else None]
@@ -308,7 +308,14 @@ def run_impl(case):
     else:
         opcls = {"psel": PSel, "mate": Mate, "eval": Eval, "ssel": SSel}
         def val(v): return None if v is None else (_Bad([0]) if v == "bad" else dicts[v])
-        for c in session:
+        def setget(name, v):
+            """the set/get law, on the implementation: an accepting setter makes its own getter return the very object handed over"""
+            setattr(prog, name, v)
+            got = getattr(prog, name)
+            if not (got is v or (isinstance(v, int) and got == v)):
+                f = "after prog.%s = x the getter does not return x" % name
+                if f not in faults: faults.append(f)
+        for ci, c in enumerate(session):
             ok = True
             try:
                 k = c[0]
@@ -327,13 +334,16 @@ def run_impl(case):
                 elif k == "is_init":
                     r = prog.is_initialized()
                     ctx.trace.append({"tag": 30, "t": 1 if r is True else (0 if r is False else 2), "tm": 0, "rep": 0, "roots": [], "dat": [], "misc": []})
-                elif k == "set_start": setattr(prog, "start_" + S_NAMES[c[1]], val(c[2]))
-                elif k == "set_work": setattr(prog, S_NAMES[c[1]], val(c[2]))
-                elif k == "set_t": prog.t_cur = 1.5 if c[1] == "bad" else c[1]
-                elif k == "set_tmax": prog.t_max = "7" if c[1] == "bad" else c[1]
-                elif k == "set_op": setattr(prog, c[1] + "op", opcls[c[1]](ctx, c[2]))
-                elif k == "set_initop": prog.initop = (InitStrict if c[1] else Init)(ctx, [pick(i) for i in c[2]])
-                elif k == "book": book = Book(ctx, c[2], c[1])
+                elif k == "set_start": setget("start_" + S_NAMES[c[1]], val(c[2]))
+                elif k == "set_work": setget(S_NAMES[c[1]], val(c[2]))
+                elif k == "set_t": setget("t_cur", 1.5 if c[1] == "bad" else c[1])
+                elif k == "set_tmax": setget("t_max", "7" if c[1] == "bad" else c[1])
+                elif k == "set_op":
+                    o = opcls[c[1]](ctx, c[2]); o.serial = ci + 1; setget(c[1] + "op", o)
+                elif k == "set_initop":
+                    o = (InitStrict if c[1] else Init)(ctx, [pick(i) for i in c[2]]); o.serial = ci + 1; setget("initop", o)
+                elif k == "book":
+                    book = Book(ctx, c[2], c[1]); book.serial = ci + 1
                 elif k == "copy":
                     ctx.keep.append(prog); prog = copy.copy(prog)
                 elif k == "deepcopy":
@@ -497,25 +507,26 @@ def _simulate(case):
     work = [False] * NSLOT
     ops = {k: case["ops"][k] for k in OPS}; logs = {k: case["logs"][k] for k in LOGS}
     exp = []; ids_known = True
+    who = {TAGS["initialize"]: 0, TAGS["pselect"]: 0, TAGS["mate"]: 0, TAGS["evaluate"]: 0, TAGS["sselect"]: 0, "book": 0}
     def clean(): return all(_prog_clean(ops[k], True) for k in OPS) and all(_prog_clean(logs[k], False) for k in LOGS)
     def gens(n):
         nonlocal t
         for _ in range(max(n, 0)):
             for nm in ("pselect", "mate", "evaluate", "sselect"):
-                exp.append(("call", TAGS[nm], t, None, tm, None)); exp.append(("call", TAGS["log_" + nm], t, rep, tm, None))
+                exp.append(("call", TAGS[nm], t, None, tm, None, who[TAGS[nm]])); exp.append(("call", TAGS["log_" + nm], t, rep, tm, None, who["book"]))
             t += 1
     done = 0
-    for c in case["session"]:
+    for ci, c in enumerate(case["session"]):
         k = c[0]
         if k == "evolve":
             if not clean(): break
             if any(x is None for x in start):
                 if c[1] > 0 and any(x is None for x in init): break
-                exp.append(("call", TAGS["initialize"], 0, None, 0, None)); start = list(init)
+                exp.append(("call", TAGS["initialize"], 0, None, 0, None, who[TAGS["initialize"]])); start = list(init)
             for _ in range(max(c[1], 0)):
                 rep += 1; t = 0; work = [True] * NSLOT
-                exp.append(("call", TAGS["evaluate"], 0, None, tm, list(start)))
-                if c[3]: exp.append(("call", TAGS["log_initialize"], 0, rep, tm, None))
+                exp.append(("call", TAGS["evaluate"], 0, None, tm, list(start), who[TAGS["evaluate"]]))
+                if c[3]: exp.append(("call", TAGS["log_initialize"], 0, rep, tm, None, who["book"]))
                 t = 1
                 gens(c[2])
         elif k == "advance":
@@ -525,7 +536,7 @@ def _simulate(case):
             if any(x is None for x in start): break
             work = [True] * NSLOT; t = 0
         elif k == "initialize":
-            exp.append(("call", TAGS["initialize"], 0, None, 0, None)); start = list(init)
+            exp.append(("call", TAGS["initialize"], 0, None, 0, None, who[TAGS["initialize"]])); start = list(init)
         elif k == "is_init":
             exp.append(("isinit", 1 if all(x is not None for x in start) else 0))
         elif k == "set_start":
@@ -540,9 +551,9 @@ def _simulate(case):
         elif k == "set_tmax":
             if c[1] == "bad": break
             tm = c[1]
-        elif k == "set_op": ops[c[1]] = c[2]
-        elif k == "set_initop": init = list(c[2])
-        elif k == "book": rep = c[1]; logs = dict(c[2])
+        elif k == "set_op": ops[c[1]] = c[2]; who[TAGS[{"psel": "pselect", "mate": "mate", "eval": "evaluate", "ssel": "sselect"}[c[1]]]] = ci + 1
+        elif k == "set_initop": init = list(c[2]); who[TAGS["initialize"]] = ci + 1
+        elif k == "book": rep = c[1]; logs = dict(c[2]); who["book"] = ci + 1
         elif k == "copy": pass
         elif k == "deepcopy": ids_known = False
         exp.append(("mark", t, rep)); done += 1
@@ -569,6 +580,10 @@ def _pred_session(case, out):
             g = (e["tag"], 0 if e["tag"] == TAGS["initialize"] else e["t"], e["rep"] if e["tag"] not in (30, 31) else None)
             if e["tag"] in (30, 31) or g != (x[1], x[2], x[3]):
                 bad.append("event %d is %s(t_cur=%s, rep=%s), expected %s(t_cur=%s, rep=%s)" % (i, name, e["t"], e["rep"], TAGNAME[x[1]], x[2], x[3])); break
+            if e.get("who", 0) != x[6]:
+                bad.append("event %d (%s) went to the %s installed %s, not to the one in place at this call (installed %s)" % (
+                    i, name, "logbook" if name.startswith("log_") else "operator", "by command %d" % (e.get("who", 0) - 1) if e.get("who", 0) else "at construction",
+                    "by command %d" % (x[6] - 1) if x[6] else "at construction")); break
             if e["tag"] != TAGS["initialize"] and e["tm"] != x[4]:
                 bad.append("event %d (%s): t_max passed as %r, the programme's t_max is %r" % (i, name, e["tm"], x[4])); break
         n_ok = i + 1
@@ -1118,7 +1133,9 @@ def gen_cases(rng, tier):
 
 
 def translate(repo, gen_dir):
-    """regenerate Gen/C20_Program.v: the bodies of reset/is_initialized/initialize/advance/evolve translated statement by
-    statement into the model's combinators (fail closed); Proofs/C20_Program.v ties it to the hand model by reflexivity"""
-    from translate import c20_program
-    return [c20_program.translate(repo, gen_dir)]
+    """regenerate Gen/C20_Program.v (the bodies of reset/is_initialized/initialize/advance/evolve translated statement by
+    statement into the model's combinators) and Gen/C20_Kernel.v (the attribute layer: getter / setter / type check of each of
+    the seventeen properties, the constructor's assignments, the operator type guards), both fail closed;
+    Proofs/C20_Program.v and Proofs/C20_Kernel.v tie them to the hand model by reflexivity"""
+    from translate import c20_program, c20_kernel
+    return [c20_program.translate(repo, gen_dir), c20_kernel.translate(repo, gen_dir)]
